@@ -114,6 +114,10 @@ func c17(ctx *core.Ctx) {
 		r := ctx.Rand(ti, "table")
 		go17 := commonGenOpts()
 		go17.OddMethods = true
+		if m := ti % 40; m == 14 || m == 15 {
+			// table shapes beyond what the small tables reach (long templates, 33-40 services, long media lists, many conditions, 130 routes)
+			ctx.SetAdd("scaled_table_shapes", rt.Scale(&go17, ti/40))
+		}
 		t := rt.GenTable(r, go17)
 		ctx.Case(ti, "router="+router+" table="+core.JSON(t))
 		// every 3rd table: explicit OPTIONS routes; every 3rd: routes change between two probe passes
@@ -309,6 +313,10 @@ func c18(ctx *core.Ctx) {
 		o.Conds = true
 		o.StarMedia = true
 		o.Twins = true
+		if m := ti % 40; m == 14 || m == 15 {
+			// table shapes beyond what the small tables reach (long templates, 33-40 services, long media lists, many conditions, 130 routes)
+			ctx.SetAdd("scaled_table_shapes", rt.Scale(&o, ti/40))
+		}
 		t := rt.GenTable(r, o)
 		ctx.Case(ti, "table="+core.JSON(t))
 		var cs [2]*restful.Container
